@@ -238,7 +238,12 @@ pub fn run(sut: &dyn Sut, tier: Tier) -> ! {
     run.canaries(&mut |v| eval_replay(sut, v));
     let cases = tier.pick(5000, 150000);
     let mut j = |choices: &[u32], st: &mut Stats| judge_wide(sut, choices, st);
-    if let Some(f) = run_inprocess(run.seed_for(1), cases, (150, 800), &mut stats, &mut j) {
+    let mut found = run_inprocess(run.seed_for(1), cases, (150, 800), &mut stats, &mut j);
+    if found.is_none() && tier == Tier::Thorough {
+        // coverage-guided search over the same choice sequences (libFuzzer, oracle in the target)
+        found = fuzz_choices(&run, &mut stats, (150, 800), 300, 12, 8_000, &mut j);
+    }
+    if let Some(f) = found {
         let mut st = Stats::new();
         let body = match C08.build(&f.choices, &mut st) {
             Some(b) => case_json(&b, &f.choices, None),
